@@ -219,6 +219,13 @@ def exponentTooLarge (str : Bytes) : Outcome Bool :=
                 | none => .ok true
                 | some n => .ok (decide (n > 1000))
 
+/-- the ByteSize hook around `resource.ParseQuantity`: what string, if any, is handed to the parser.
+The guard is evaluated on `str` and the parser gets the same `str` (T1: the inventory checks that the
+call's argument expression is textually the guard's argument and that no assignment lies between). -/
+def quantityCall (str : Bytes) : Outcome Bytes :=
+  (exponentTooLarge str).bind fun big =>
+    if big then .err "value is not a valid quantity: exponent out of range" else .ok str
+
 /-! ### `config.Normalize` -/
 
 inductive Val where
